@@ -6,20 +6,24 @@ LEVEL = 'proof'
 CLAIMED = True
 RULE = ('correspondence c15_text: Text::draw (pixel map on both recording targets, returned position) and Text::bounding_box vs the extracted model, on synthetic '
         'MonoFont records (spacing 0..3, any atlas, see C14) x 3 alignments x 4 baselines x line heights Pixels(0..40)/Percent(0..400) x 16 colour/decoration roles x '
-        'strings with 0..4 line breaks as LF or CR LF, empty lines, trailing newline, lone/double CR, unmapped characters x small and +-2^20 positions. '
+        'strings with 0..4 line breaks as LF or CR LF, empty lines, trailing newline, lone CR (leading, mid-line, trailing), doubled CR, CR CR LF, unmapped characters x small and +-2^20 positions. '
         'search p_c15 (real built-in fonts, independent arithmetic): per line alignment of the measure_string box (starts at / ends at / centred within half a pixel), '
         'k-th line k*line_height lower, every glyph cell against font.image (C14 reference), draw returns measure_string next position, bounding box = hull of the '
-        'line boxes, baseline = Top moved by the documented offset, text with LF = parts drawn separately, CR LF = LF, left-aligned chaining s1 then s2 = s1+s2.')
+        'line boxes, baseline = Top moved by the documented offset, text with LF = parts drawn separately, CR LF = LF, left-aligned chaining s1 then s2 = s1+s2, Text::new / with_baseline / with_alignment and TextStyle::with_* / default == the builder forms (and render identically).')
 EXHAUSTIVE = {'quick': False, 'thorough': False}
-ASSUMPTIONS = g.ASSUMPTIONS + ['chaining is stated for left alignment, fonts without spacing and s1 not ending in CR; CR LF = LF for lines whose content does not itself end in CR '
-                               '(Text strips exactly one trailing CR per line)']
+ASSUMPTIONS = g.ASSUMPTIONS + ['vertical range: Text::lines adds line_height per line in i32 and LineHeight::Percent computes ch*percent in u32 (text.rs:143, text/mod.rs:268); the model is '
+                               'unbounded, so the layout theorems transfer to the code while |y| + lines*line_height <= 2^28 and ch*percent < 2^32 (generators: <= 5 lines, line height <= 52, percent <= 400)',
+                               'chaining is stated for left alignment, fonts without spacing and s1 not ending in CR; CR LF = LF whenever no line that is followed by CR LF itself ends in CR '
+                               '(crlf_ok; Text strips exactly one trailing CR per line, the condition is shown necessary by C15_crlf_needs_condition)']
 TRUSTED = ['modelled, not verified: str::split(\'\\n\') / strip_suffix(\'\\r\') on code point lists (UTF-8 continuation bytes cannot be 0x0A/0x0D); exercised by non-ASCII cases']
 PARTIAL = []
-LEVEL_TEXT = ('Proof: 16 Coq theorems over the model of Text::lines/draw/bounding_box + MonoTextStyle (any font record): draw_string and Text::draw return the position '
+LEVEL_TEXT = ('Proof: 23 Coq theorems over the model of Text::lines/draw/bounding_box + MonoTextStyle (any font record): draw_string and Text::draw return the position '
               'measure_string predicts (for spacing 0 - every built-in font, by reflection over the regenerated table - or any colour set); drawing s1 then s2 at the returned '
               'position gives the pixel map and returned position of s1+s2 (left aligned, no spacing, also after complete lines); the k-th line is k line heights lower and its '
               'box starts at / ends at / is centred within half a pixel on x; the baseline setting is exactly a vertical move by the documented offset; text with "\\n" equals '
-              'its parts drawn separately; "\\r\\n" gives the same lines, calls, returned position and bounding box as "\\n".')
+              'its parts drawn separately; "\\r\\n" gives the same lines, calls, returned position and bounding box as "\\n" (exact condition crlf_ok); the position of every line is given exactly '
+              '(including the rounding direction of Center); the bounding box is the smallest rectangle containing the per-line boxes; the Text-level forms hold hypothesis-free '
+              '(except range) for every built-in font.')
 LEVEL_NOTE = ('Trusted: Coq kernel, extraction, drivers; the model is tied to the code by differential runs on synthetic fonts and by the p_c15 property search on all '
               'built-in fonts. Observation (not a violation of the statement): with spacing > 0 and neither text nor background colour draw_string advances by n*(cw+sp) '
               'while measure_string predicts n*(cw+sp)-sp; a line content ending in CR loses that CR even without a following LF.')
@@ -39,8 +43,17 @@ def multiline(rng, chars, clean=False):
     n = rng.choice([1, 1, 2, 2, 3, 4, 5])
     for k in range(n):
         l = [c for c in line(rng, chars) if c not in (10, 13)]
-        if not clean and rng.random() < 0.08:
-            l = l + [13]
+        if not clean:
+            r = rng.random()
+            if r < 0.08:
+                l = l + [13]                                   # content ending in CR ("x\r" + separator)
+            elif r < 0.16:
+                l.insert(rng.randrange(len(l) + 1), 13)        # lone CR anywhere: leading, mid-line or trailing
+            elif r < 0.20:
+                i = rng.randrange(len(l) + 1)
+                l[i:i] = [13, 13]                              # doubled CR
+            elif r < 0.23:
+                l = [13] + l                                   # leading CR
         out += l
         if k + 1 < n:
             out += [13, 10] if rng.random() < 0.4 else [10]
@@ -50,6 +63,8 @@ def multiline(rng, chars, clean=False):
 
 
 def tstyle(rng):
+    if rng.random() < 0.25:
+        return (rng.randrange(3), rng.randrange(4), 1, 100)    # default line height: the convenience constructors apply
     k = rng.randrange(2)
     v = rng.choice([0, 1, 5, 8, 10, 13, 20, 40]) if k == 0 else rng.choice([0, 50, 99, 100, 101, 150, 200, 400])
     return (rng.randrange(3), rng.randrange(4), k, v)
